@@ -5,6 +5,7 @@ import itertools
 import random
 import re
 
+from . import docspace as D
 from . import pipeline as P
 from .common import *  # noqa: F401,F403
 
@@ -49,6 +50,32 @@ def bounded(tier, seed):
                         break
                 if flat != re.sub(r"\s+", " ", text).strip() and "\\" not in out:
                     viol.append({"clause": "spacing_kept", "input": {"text": text, "options": {"width": w, "semantic": sem}}, "got": out})
+    # paragraphs inside containers with INLINE tags (also Markdoc-style closing tags and comments), at every width where one of
+    # them may land at the start of a continuation line: the block structure stays, the words stay in order, every
+    # continuation line keeps the container's indent (a post-processing step that un-indents "closing tag lines" must not
+    # fire on a wrapped paragraph line)
+    inline_docs = [
+        "- Render the badge {% if beta %}only for beta users{% /if %} and keep going with more words so that the line wraps again here.\n- second item\n",
+        "1. Step one <!-- note --> has a comment <!-- /note --> in the middle of a long sentence that needs to be wrapped somewhere.\n2. Step two\n",
+        "> Quoted text with {% tip %}an inline tip{% /tip %} that is long enough to be wrapped at many different widths, really.\n",
+        "- outer\n  - inner item with {{ value }} and {% /endfor %} stray closers inside a longer nested paragraph of words here.\n",
+    ]
+    for d in inline_docs:
+        want_struct = D.canonical(d)
+        for w in (range(24, 101, 4) if tier == "quick" else range(20, 121)):
+            for sem in (False, True):
+                out = P.fmt(d, width=w, semantic=sem)
+                evals += 1
+                bad = None
+                if D.canonical(out) != want_struct:
+                    bad = "block structure changed"
+                elif re.sub(r"[\s>]+", " ", out).split() != re.sub(r"[\s>]+", " ", d).split():
+                    bad = "words changed"
+                elif any(l and not l.startswith((" ", ">", "-", "1.", "2.")) for l in out.split("\n")):
+                    bad = "a continuation line lost the container's indent"
+                if bad:
+                    viol.append({"clause": "inline_tags_stay_in_their_paragraph", "input": {"text": d, "options": {"width": w, "semantic": sem}}, "got": out, "want": bad})
+                    break
     # the single-tag patterns: a tag runs from its opener to the FIRST closer, whatever characters lie between
     from flowmark.linewrapping import atomic_patterns as AP
     for pat in (AP.SINGLE_JINJA_TAG, AP.SINGLE_JINJA_COMMENT, AP.SINGLE_JINJA_VAR, AP.SINGLE_HTML_COMMENT):
@@ -91,7 +118,7 @@ def bounded(tier, seed):
                             viol.append({"clause": "block_in_tags_separated", "input": {"text": text, "options": {"width": w, "semantic": sem}}, "got": out})
     return {"evaluations": evals, "distinct_nontrivial": len(distinct), "violations": viol,
             "samples": [{"text": " ".join([WORDS[0], CONSTRUCTS[0], WORDS[2], CONSTRUCTS[4]])}],
-            "rule": "(also: line_is_list_item / table_row / block_content, the five tag-line predicates and the code-span / HTML-tag / link / "
+            "rule": "(also: four container paragraphs with inline tags at widths 24..100: structure, word order and continuation indents kept) (also: line_is_list_item / table_row / block_content, the five tag-line predicates and the code-span / HTML-tag / link / "
                     "paired-tag patterns against independent restatements on enumerated short inputs) each of the 4 single-tag patterns on opener + every body of <= 3 symbols over a 13-symbol alphabet + closer: the match ends at "
                     "the first closer; seeded top-level paragraphs of 2-7 tokens mixing 5 words with 21 atomic constructs (tags whose body holds their own delimiter characters) (incl. multi-backtick code spans holding backticks) x widths (quick {1,3,5,8,12,20,88}, "
                     "thorough 1..20, 40, 88) x both modes: every construct lies within one output line and the whitespace-collapsed text is "
